@@ -45,7 +45,7 @@ def run(tier):
                 DataCollector.collect_agent_statistics)
     # the claim (both tiers): these conditions must all be confirmed.  The thorough tier adds deeper slices
     # (smaller dt, deletion at small dt) under a wall-time budget; what CrossHair does not finish is not explored.
-    base_dts, deep_dts = [1.0, 0.5, 0.25, 0.2, 0.1], ([0.125, 0.05, 0.04] if tier == "thorough" else [])
+    base_dts, deep_dts = [1.0, 0.5, 0.25, 0.2, 0.1, 0.125], ([0.05, 0.04] if tier == "thorough" else [])
     dts = base_dts + deep_dts
     jobs = []
     for dt in dts:
